@@ -73,3 +73,9 @@ func (cs *ChainService) VerifStop() {
 
 func VerifSetCoinbase(a []byte) { CoinbaseAccount = a }
 func VerifCoinbase() []byte     { return CoinbaseAccount }
+
+// VerifFindAncestor is what the chain worker does for a GetAncestor request (the remote side of
+// the syncer's ancestor search).
+func (cs *ChainService) VerifFindAncestor(hashes [][]byte) (*types.BlockInfo, error) {
+	return cs.findAncestor(hashes)
+}
